@@ -27,7 +27,7 @@ import (
 
 // LargeCase is procedural, so the replay file stays tiny.
 type LargeCase struct {
-	Dim   string `json:"dim"`   // vertices | lines | rings | polygons | members | depth | features
+	Dim   string `json:"dim"`   // vertices | ties | lines | rings | polygons | members | depth | features
 	Shape string `json:"shape"` // vertices: zigzag | comb | sawtooth | spiral | runs | ring | clusters | lattice
 	N     int    `json:"n"`     // size along the dimension
 	Ring  bool   `json:"ring"`
@@ -298,6 +298,170 @@ func checkLargeLine(c LargeCase) (dpStats, error) {
 	return st, nil
 }
 
+// ---------------------------------------------------------------- exact ties in long inputs (M5)
+
+// tiesLine: a long run at A, 2..5 feature vertices of EQUAL height (so that
+// two or more are at bitwise-equal distance from the chord A-B; mirror pairs
+// when the count is even), a long run at B. Runs are repeated vertices
+// (variant 0) or distinct collinear vertices on the chord (variant 1). All
+// coordinates are small integers or dyadic fractions: the tie is exact under
+// any evaluation order.
+func tiesLine(n, variant int) []orb.Point {
+	nf := 2 + (n+variant)%4
+	left := (n - nf) / 4
+	if left < 1 {
+		left = 1
+	}
+	right := n - nf - left
+	ps := make([]orb.Point, 0, n)
+	for i := 0; i < left; i++ {
+		if variant%2 == 0 {
+			ps = append(ps, orb.Point{0, 0})
+		} else {
+			ps = append(ps, orb.Point{float64(i) / 1024 / float64(1+left/1024), 0})
+		}
+	}
+	if variant%2 == 1 {
+		ps[0] = orb.Point{0, 0}
+	}
+	xs := [][]float64{{10, 40}, {10, 40, 70}, {10, 40, 60, 90}, {10, 30, 50, 70, 90}}[nf-2]
+	for _, x := range xs {
+		ps = append(ps, orb.Point{x, 10})
+	}
+	for i := 0; i < right; i++ {
+		if variant%2 == 0 {
+			ps = append(ps, orb.Point{100, 0})
+		} else {
+			ps = append(ps, orb.Point{100 + float64(i)/1024/float64(1+right/1024), 0})
+		}
+	}
+	return ps
+}
+
+// ownDP is the harness's own Douglas-Peucker (explicit stack, own distance,
+// FIRST farthest vertex on ties - the rule of the unchanged tree). ok is false
+// when some decision was borderline (a near tie that is not exact, or a maximum
+// within 1e-9 of the threshold): then the result is not compared.
+func ownDP(in []orb.Point, t float64) (kept []orb.Point, ok bool) {
+	n := len(in)
+	if n <= 2 {
+		return clonePts(in), true
+	}
+	mask := make([]bool, n)
+	mask[0], mask[n-1] = true, true
+	ok = true
+	stack := [][2]int{{0, n - 1}}
+	for len(stack) > 0 {
+		lo, hi := stack[len(stack)-1][0], stack[len(stack)-1][1]
+		stack = stack[:len(stack)-1]
+		M, arg := 0.0, -1
+		for i := lo + 1; i < hi; i++ {
+			d := segDist(in[lo], in[hi], in[i])
+			if d > M {
+				if M > 0 && d <= M*(1+relTol) {
+					ok = false // near tie, not exact
+				}
+				M, arg = d, i
+			} else if d != M && d >= M*(1-relTol) && M > 0 {
+				ok = false
+			}
+		}
+		if math.Abs(M-t) <= relTol*(M+t) && M != t {
+			ok = false
+		}
+		if arg >= 0 && M > t {
+			mask[arg] = true
+			stack = append(stack, [2]int{lo, arg}, [2]int{arg, hi})
+		}
+	}
+	for i, m := range mask {
+		if m {
+			kept = append(kept, in[i])
+		}
+	}
+	return kept, ok
+}
+
+func checkLargeTies(c LargeCase) error {
+	in := tiesLine(c.N, c.TSel)
+	ring := c.Ring
+	n := len(in)
+	tag := fmt.Sprintf("ties n=%d variant=%d", n, c.TSel)
+	ts := [][2]float64{{4, 9.5}, {2, 4}, {0.5, 9.5}, {4, 12}}[c.TSel%4]
+	var dpOut [2][]orb.Point
+	for k, t := range ts {
+		what := fmt.Sprintf("DouglasPeucker(%v) on %s", t, tag)
+		out, err := applyGuarded(simplify.DouglasPeucker(t), in, ring)
+		if err != nil {
+			return fmt.Errorf("%s: %v", what, err)
+		}
+		out = clonePts(out)
+		if err := checkBasic(what, in, out); err != nil {
+			return err
+		}
+		if err := checkDPBound(what, in, out, t); err != nil {
+			return err
+		}
+		if again := apply(simplify.DouglasPeucker(t), out, ring); !sameSeq(again, out) {
+			return fmt.Errorf("%s is not idempotent: once=%v twice=%v", what, short(out), short(again))
+		}
+		if want, ok := ownDP(in, t); ok && !sameSeq(out, want) {
+			// the statement does not fix the tie rule: counted, never a failure
+			stats.Class("note:DP picked another tied vertex than the first")
+		}
+		dpOut[k] = out
+	}
+	if !isSubseq(dpOut[1], dpOut[0]) {
+		return fmt.Errorf("DouglasPeucker on %s not monotone: threshold %v keeps a vertex that %v dropped: %v vs %v", tag, ts[1], ts[0], short(dpOut[0]), short(dpOut[1]))
+	}
+	// radial: the greedy model (exact)
+	for _, tr := range []float64{0, 29.5, 30} {
+		what := fmt.Sprintf("Radial(planar,%v) on %s", tr, tag)
+		out := apply(simplify.Radial(distFunc("planar"), tr), in, ring)
+		if err := checkBasic(what, in, out); err != nil {
+			return err
+		}
+		if want := radialModel(in, ownPlanar, tr); !sameSeq(out, want) {
+			return fmt.Errorf("%s: kept %v, the greedy scan keeps %v", what, short(out), short(want))
+		}
+	}
+	// Visvalingam: the feature triangles have equal areas (exact ties in the heap)
+	dm := defaultMin(ring, in)
+	var vOut [2][]orb.Point
+	for k, t := range []float64{50, 400} {
+		what := fmt.Sprintf("VisvalingamThreshold(%v) on %s", t, tag)
+		out := clonePts(apply(simplify.VisvalingamThreshold(t), in, ring))
+		if err := checkBasic(what, in, out); err != nil {
+			return err
+		}
+		if len(out) < minInt(n, dm) {
+			return fmt.Errorf("%s: %d vertices left, minimum is %d", what, len(out), dm)
+		}
+		if len(out) > dm {
+			for i := 1; i+1 < len(out); i++ {
+				if a := dblArea(out[i-1], out[i], out[i+1]); a < 2*t {
+					return fmt.Errorf("%s: stopped with %d vertices although output vertex %d = %v spans a triangle of doubled area %v, below the threshold", what, len(out), i, out[i], a)
+				}
+			}
+		}
+		if len(out) >= 2 && len(out) < n {
+			if kk := apply(simplify.VisvalingamKeep(len(out)), in, ring); !sameSeq(kk, out) {
+				return fmt.Errorf("%s: the result %v differs from VisvalingamKeep(%d) = %v", what, short(out), len(out), short(kk))
+			}
+		}
+		vOut[k] = out
+	}
+	if !isSubseq(vOut[1], vOut[0]) {
+		return fmt.Errorf("VisvalingamThreshold on %s not monotone: %v vs %v", tag, short(vOut[0]), short(vOut[1]))
+	}
+	for _, k := range []int{2, 3, 4, 5, n / 2, n - 1} {
+		if out := apply(simplify.VisvalingamKeep(k), in, ring); len(out) != minInt(n, k) || checkBasic("VisvalingamKeep", in, out) != nil {
+			return fmt.Errorf("VisvalingamKeep(%d) on %s: %d vertices left, want exactly %d, first/last kept, subsequence", k, tag, len(out), minInt(n, k))
+		}
+	}
+	return nil
+}
+
 // ---------------------------------------------------------------- member dimensions
 
 func smallLine(i int, closed bool) []orb.Point {
@@ -467,6 +631,9 @@ func checkLargeGeom(c LargeCase) error {
 }
 
 func checkLarge(c LargeCase) (dpStats, error) {
+	if c.Dim == "ties" {
+		return dpStats{}, checkLargeTies(c)
+	}
 	if c.Dim == "vertices" {
 		return checkLargeLine(c)
 	}
@@ -588,6 +755,12 @@ func TestEnumLarge(t *testing.T) {
 			run(c)
 		}
 	}
+	// M5: exact ties for the farthest vertex / smallest area inside long inputs
+	for _, n := range []int{10, 37, 1021, 2050, 4094, 4095, 4096, 4097, 4098, 4099, 6145, 8193, 10001, 16387, 32771, 65539} {
+		for v := 0; v < 4; v++ {
+			run(LargeCase{Dim: "ties", N: n, TSel: v, Ring: (n+v)%3 == 0})
+		}
+	}
 	for pos, n := range ladder(pick(1<<16+3, 1<<18+3)) {
 		if !th && n > 40 && pos%2 != 0 {
 			continue
@@ -604,6 +777,18 @@ func TestEnumLarge(t *testing.T) {
 func TestPropLarge(t *testing.T) {
 	assumptions()
 	stats.Check(t, 200, 20000, func(rt *rapid.T) {
+		if rapid.IntRange(0, 4).Draw(rt, "ties") == 2 {
+			c := LargeCase{Dim: "ties", N: rapid.IntRange(8, 20000).Draw(rt, "n"), TSel: rapid.IntRange(0, 3).Draw(rt, "variant"), Ring: rapid.Bool().Draw(rt, "ring")}
+			stats.Class("large random:ties")
+			stats.Try(rt, "TestPropLarge", c, func() error {
+				_, err := checkLarge(c)
+				if err == nil {
+					stats.NonTrivial("large:" + gen.JSON(c))
+				}
+				return err
+			})
+			return
+		}
 		c := LargeCase{Dim: "vertices"}
 		c.Shape = rapid.SampledFrom(largeShapes).Draw(rt, "shape")
 		top, _ := shapeTop(c.Shape)
